@@ -154,6 +154,27 @@ SimpleValid(c, i) ==
          ELSE IF c.fixed = "one" /\ i.text = "" THEN TRUE     \* an empty element takes the fixed value
          ELSE TextOK(t, i.text) /\ (c.fixed = "one" => i.text \in {"1", "01"})
 
+(* Fixed values and the whiteSpace facet: the text is normalised by the type's    *)
+(* whiteSpace facet BEFORE it is compared with the fixed value: collapse          *)
+(* (integer, token), replace (normalizedString), preserve (string).  The fixed    *)
+(* value is "a b" ("1" for integer).  Text classes: "same"; "padded" (leading and  *)
+(* trailing blank); "tabbed" (the inner blank is a TAB); "inner2" (two inner       *)
+(* blanks); "other"; "" (an empty element takes the fixed value).  `wrap`: the     *)
+(* element has a complex type with simple content over the type.                  *)
+FixedCfgs == [dt : {"integer", "token", "normalizedString", "string"}, wrap : BOOLEAN]
+FixedInsts == {"same", "padded", "tabbed", "inner2", "other", ""}
+WsOf(dt) == CASE dt \in {"integer", "token"} -> "collapse"
+              [] dt = "normalizedString" -> "replace"
+              [] dt = "string" -> "preserve"
+FixedValid(c, x) == \/ x \in {"same", ""}
+                    \/ (x = "padded" /\ WsOf(c.dt) = "collapse")
+                    \/ (x = "tabbed" /\ WsOf(c.dt) \in {"collapse", "replace"})
+                    \/ (x = "inner2" /\ WsOf(c.dt) = "collapse")
+(* a stronger normalisation accepts whatever a weaker one accepts *)
+ASSUME \A w \in BOOLEAN : \A x \in FixedInsts :
+         /\ FixedValid([dt |-> "string", wrap |-> w], x) => FixedValid([dt |-> "normalizedString", wrap |-> w], x)
+         /\ FixedValid([dt |-> "normalizedString", wrap |-> w], x) => FixedValid([dt |-> "token", wrap |-> w], x)
+
 (* XSD 1.1 type alternatives: the first alternative whose test holds selects the *)
 (* governing type.  Declared type T (content: nothing); TA, TB, TC extend it    *)
 (* with one required child x, y, z.  alts is a sequence of <<test, type>> with  *)
@@ -174,12 +195,13 @@ ASSUME \A al \in AltLists : \A k \in {"absent", "a", "b", "z"} : Select(al, k) \
 
 ------------------------------------------------------------------------------
 (* enumeration as a (stateless) state space: one initial state per case       *)
-CONSTANTS Mode      \* "xsitype" | "subst" | "simple" | "alt"
+CONSTANTS Mode      \* "xsitype" | "subst" | "simple" | "alt" | "fixedws"
 VARIABLES cfg, inst
 Init == CASE Mode = "xsitype" -> cfg \in Schemas /\ inst \in Instances
           [] Mode = "subst"   -> cfg \in {q \in SubSchemas : SubWellFormed(q)} /\ inst \in {"H", "M1", "M2"}
           [] Mode = "simple"  -> cfg \in SimpleCfgs /\ inst \in SimpleInsts
           [] Mode = "alt"     -> cfg \in AltLists /\ inst \in AltInsts
+          [] Mode = "fixedws" -> cfg \in FixedCfgs /\ inst \in FixedInsts
 Next == FALSE /\ UNCHANGED <<cfg, inst>>
 Spec == Init /\ [][Next]_<<cfg, inst>>
 TypesOf(s) == [T0 |-> Content(s, "T0"), T1 |-> Content(s, "T1"), T2 |-> Content(s, "T2")]
@@ -192,4 +214,5 @@ Emit == CASE Mode = "xsitype" ->
           [] Mode = "simple" -> PrintT(ToJson([cfg |-> cfg, inst |-> inst, valid |-> SimpleValid(cfg, inst)]))
           [] Mode = "alt" -> PrintT(ToJson([cfg |-> cfg, inst |-> inst, sel |-> Select(cfg, inst.k),
                                             valid |-> AltValid(cfg, inst)]))
+          [] Mode = "fixedws" -> PrintT(ToJson([cfg |-> cfg, inst |-> inst, valid |-> FixedValid(cfg, inst)]))
 =============================================================================
